@@ -186,10 +186,10 @@ def handle (line : String) : String :=
   match parts.getLast?, parts.dropLast.getLast? with
   | some writes, some store =>
     match Sexp.parse (" ".intercalate (parts.dropLast.dropLast)) with
-    | some (.list (.atom "L" :: vs)) =>
-      match vs.mapM readVD with
+    | some (.list (.atom "L" :: vs0)) =>
+      match vs0.mapM readVD with
       | some vs =>
-        let σ := parseStore store
+        let σ := storeAfterBuild (parseStore store) vs0
         let (inst, k) := mountList σ (VDList.ofList vs) 0
         let (m, out) := showTrees [] (domList σ inst)
         " | ".intercalate (runWrites σ inst k m (if writes == "-" then [] else writes.splitOn ",") [out])
